@@ -307,6 +307,7 @@ def main(argv):
     # 5/6 compare + classify
     disagreements, oracle_new, oracle_known, resolved = [], [], {}, []
     nontrivial = set()
+    unmodelled = 0
     triv = re.compile(cfg.get("trivial_response", r"^$"))
     for i, req in enumerate(reqs):
         iobs, ifail = split_impl(impl[i]) if i < len(impl) else ("MISSING", "missing")
@@ -316,7 +317,10 @@ def main(argv):
             mobs, trig = None, []
         if not triv.search(iobs):
             nontrivial.add(req)
-        agree = (mobs is None) or (mobs == iobs)
+        # `*` = the model does not cover this entry point (C02: only the real code is exercised)
+        agree = (mobs is None) or (mobs == iobs) or (mobs == "*")
+        if mobs == "*":
+            unmodelled += 1
         trig_open = [t for t in trig if t in open_findings]
         if not agree:
             if trig_open and ifail is None:
@@ -366,13 +370,14 @@ def main(argv):
              "finding_resolved_candidates": len(resolved),
              "model_disagreements": len(disagreements),
              "oracle_failures_new": len(oracle_new),
+             "requests_answered_by_impl_only": unmodelled,
              "axioms": pr.get("axioms"), "proof_failures": pr["failed"][:5]}
     if trans_info:
         extra["translator"] = trans_info
     if "leanchecker" in pr:
         extra["leanchecker"] = pr["leanchecker"]
     write_evidence(pid, tier, seed, cfg, pr, len(reqs), len(nontrivial), samples,
-                   len(reqs) if model is not None else 0, len(disagreements),
+                   (len(reqs) - unmodelled) if model is not None else 0, len(disagreements),
                    bool(cfg.get("exhaustive_note")), time.time() - t0, violations, extra)
     log(f"{pid} {tier}: {len(reqs)} cases, {len(disagreements)} disagreements, {len(oracle_new)} new oracle failures, "
         f"{sum(len(v) for v in oracle_known.values())} known-finding cases, proofs {pr['discharged']}/{pr['obligations']}, {time.time()-t0:.1f}s")
